@@ -158,9 +158,6 @@ func checkCommitContinuation(h *H, worker *ssa.Function, app *appendSite, in ssa
 	if app.Callback == nil {
 		return false, "the WAL append has no completion callback literal: the commit wait is not ordered after the local append/sync"
 	}
-	if cc.W.Parent() != app.Callback {
-		return false, "the commit wait is not issued from the WAL append completion callback"
-	}
 	// the callback's error parameter (the last one; a method value also has its receiver)
 	var errParam *ssa.Parameter
 	if n := len(app.Callback.Params); n > 0 && ir.IsError(app.Callback.Params[n-1].Type()) {
@@ -168,6 +165,31 @@ func checkCommitContinuation(h *H, worker *ssa.Function, app *appendSite, in ssa
 	}
 	if errParam == nil {
 		return false, "unexpected signature of the WAL append completion callback"
+	}
+	if cc.W.Parent() != app.Callback {
+		// the callback may hand the error on to an extracted step (`pending.onAppended(ctx, err)`)
+		// that tests it and issues the wait
+		helper := cc.W.Parent()
+		site := ir.SingleCallSite(helper)
+		if site == nil || site.Parent() != app.Callback {
+			return false, "the commit wait is not issued from the WAL append completion callback"
+		}
+		var hp *ssa.Parameter
+		for i, a := range site.Common().Args {
+			if ir.Canon(a) == ssa.Value(errParam) && i < len(helper.Params) {
+				hp = helper.Params[i]
+			}
+		}
+		okSite, _ := ir.OkOnly(app.Callback, errParam, nil, site)
+		if !okSite {
+			if hp == nil {
+				return false, "the commit wait is issued by " + ir.FuncName(helper) + ", which does not receive the result of the WAL append"
+			}
+			if ok, path := ir.OkOnly(helper, hp, nil, cc.W); !ok {
+				return false, "the commit wait is reachable when the WAL append/sync failed " + witness(path)
+			}
+		}
+		return true, fmt.Sprintf("inside ok-continuation of WaitForCommitOffsetAsync(%s) issued by %s on the err==nil path of the AppendAndSync callback", ir.Describe(off), ir.FuncName(helper))
 	}
 	ok, path := ir.OkOnly(app.Callback, errParam, nil, cc.W)
 	if !ok {
